@@ -33,8 +33,8 @@ let show_glob removed s =
     Printf.sprintf "G:cn0,hs%d,uu0,du0,geu0/0,ged0/0,px0,cr0,cw0,cb0,tl0,bt0,bf0,hq0,cqu%d/%d,cqd%d/%d,rm%d/%d,tu%d,td%d,sk%d"
       v.(1) v.(4) v.(7) v.(10) v.(13) v.(5) v.(11) v.(15) v.(16) v.(18)
   else
-    Printf.sprintf "G:cn%d,hs%d,uu%d,du%d,geu%d/%d,ged%d/%d,px%d,cr%d,cw%d,cb%d,tl%d,bt%d,bf%d,hq%d,cqu%d/%d,cqd%d/%d,rm%d/%d,tu%d,td%d,sk%d"
-      v.(0) v.(1) v.(2) v.(8) v.(3) v.(6) v.(9) v.(12) v.(14) v.(17) v.(19) (List.length s.hq) tl bt bf (List.length s.hq) v.(4) v.(7) v.(10) v.(13) v.(5) v.(11) v.(15) v.(16) v.(18)
+    Printf.sprintf "G:cn%d,hs%d,uu%d,du%d,geu%d/%d,ged%d/%d,px%d,cr%d,cw%d,cb0,tl%d,bt%d,bf%d,hq%d,cqu%d/%d,cqd%d/%d,rm%d/%d,tu%d,td%d,sk%d"
+      v.(0) v.(1) v.(2) v.(8) v.(3) v.(6) v.(9) v.(12) v.(14) v.(17) v.(19) tl bt bf (List.length s.hq) v.(4) v.(7) v.(10) v.(13) v.(5) v.(11) v.(15) v.(16) v.(18)
 
 let ledger removed np s =
   let rs = List.init np (fun c -> show_row s.blocks removed s.rows c) in
